@@ -13,6 +13,7 @@ from harness.rigs import acl_parse as rig_p
 from harness.rigs import acl_episode as rig_e
 from harness.extract import acl_parse as x_parse
 from harness.extract import acl_writers as x_writers
+from harness.extract import acl_describe as x_describe
 
 MANIFEST = {
     "text": "Lean 4 proof, for every rule list, packet/frame and sequence of the operations the code offers (constructor, add_rule, "
@@ -34,7 +35,7 @@ MANIFEST = {
     "design_ref": "5/C07",
 }
 MODULES = ["PrimaiteModel.Props.C07", "PrimaiteModel.Props.C07State", "PrimaiteModel.Props.C07Wildcard", "PrimaiteModel.Props.C07Frame",
-           "PrimaiteModel.Props.C07Parse", "PrimaiteModel.Props.C07Life"]
+           "PrimaiteModel.Props.C07Parse", "PrimaiteModel.Props.C07Life", "PrimaiteModel.Props.C07Readers"]
 EXE = "drv_c07"
 
 
@@ -153,6 +154,7 @@ def run(ctx: Ctx):
         ctx.extract("AclState", x_acl.emit_state)
         ctx.extract("AclParse", x_parse.emit)
         ctx.extract("AclWriters", x_writers.emit)
+        ctx.extract("AclDescribe", x_describe.emit)
         proved = ctx.prove(MODULES, exes=[EXE], clean=False, leanchecker=ctx.thorough)
     # search stage: a broken extractor / C07_gen_* obligation says the source changed shape; the families aimed at the classes of
     # change seen so far (near-duplicate overwrites, reassigned defaults) are then run at three times the volume
